@@ -383,6 +383,8 @@ type runner struct {
 	w    *vt.Writer
 	r    *rand.Rand
 	full bool
+	lay  int    // rotating frame layout of the next call
+	buf  []byte // the frame, reused across calls
 }
 
 type pair struct{ ct, ad []byte }
@@ -395,16 +397,94 @@ func prodJSON(ps []pair) []any {
 	return o
 }
 
+// ------------------------------------------------------------------ caller-buffer discipline
+// All inputs of one call live ADJACENT in one driver-owned frame that is reused across calls:
+//
+//	guard | first | [spare] | second | [spare] | guard | margin
+//
+// in both orders (lay%2: 0 = ciphertext/plaintext first, 1 = associated data first), slices with their natural
+// (un-clipped) capacity, with (lay >= 2) or without a sentinel-filled spare capacity behind each slice.  Inputs
+// are logged from pre-call copies; after the call the whole frame (guards, inputs, spare, margin) must be
+// unchanged (`inIntact`): "decrypting returns exactly the plaintext" presupposes that Tink got, and left, the
+// bytes the caller passed.  nil slices stay nil (nothing to place).
+const (
+	guardLen  = 16
+	spareLen  = 24
+	marginLen = 256
+)
+
+type placed struct {
+	a, b  []byte // the slices handed to Tink
+	frame []byte // region that must not change
+	snap  []byte
+}
+
+func (x *runner) place(lay int, a, b []byte) *placed {
+	sp := 0
+	if lay >= 2 {
+		sp = spareLen
+	}
+	total := 2*guardLen + len(a) + len(b) + 2*sp + marginLen
+	if cap(x.buf) < total {
+		x.buf = make([]byte, total+4096)
+	}
+	buf := x.buf[:cap(x.buf)]
+	fr := buf[:total]
+	for i := range fr {
+		fr[i] = 0xee
+	}
+	first, second := a, b
+	if lay%2 == 1 {
+		first, second = b, a
+	}
+	off := guardLen
+	put := func(src []byte) []byte {
+		if src == nil {
+			return nil
+		}
+		d := buf[off : off+len(src)] // natural capacity: runs on through everything behind it
+		copy(d, src)
+		off += len(src)
+		for i := 0; i < sp; i++ {
+			buf[off+i] = 0xa5
+		}
+		off += sp
+		return d
+	}
+	for i := 0; i < guardLen; i++ {
+		fr[i] = 0xc3
+	}
+	f1 := put(first)
+	f2 := put(second)
+	for i := 0; i < guardLen; i++ {
+		buf[off+i] = 0xc3
+	}
+	p := &placed{frame: fr, snap: append([]byte{}, fr...)}
+	if lay%2 == 1 {
+		p.a, p.b = f2, f1
+	} else {
+		p.a, p.b = f1, f2
+	}
+	return p
+}
+
+func (p *placed) intact() bool { return string(p.frame) == string(p.snap) }
+
 // encrypt performs one Encrypt (and the round trip through Tink's own Decrypt with nil/empty associated
 // data interchanged) and logs it. Returns the ciphertext (nil on failure).
 func (x *runner) encrypt(t *target, pt, ad []byte) []byte {
 	var ct, back []byte
 	var err, rerr error
-	p, pv := vt.Try(func() { ct, err = t.a.Encrypt(pt, ad) })
+	lay := x.lay % 4
+	x.lay++
+	in := x.place(lay, pt, ad)
+	p, pv := vt.Try(func() { ct, err = t.a.Encrypt(in.a, in.b) })
+	ct = append([]byte(nil), ct...) // the driver's own copy
 	e := t.ev("encrypt")
+	e["lay"], e["inIntact"] = lay, in.intact()
 	e["pt"], e["ad"], e["adnil"] = vt.Hex(pt), vt.Hex(ad), ad == nil
 	e["ct"], e["err"], e["panic"] = vt.Hex(ct), err != nil, p
-	e["rtok"], e["rtout"], e["rtpanic"] = false, "", false
+	e["rtok"], e["rtout"], e["rtpanic"], e["rtIntact"] = false, "", false, true
 	if p {
 		e["panicVal"] = fmt.Sprint(pv)
 	}
@@ -417,8 +497,9 @@ func (x *runner) encrypt(t *target, pt, ad []byte) []byte {
 				ad2 = nil
 			}
 		}
-		rp, rpv := vt.Try(func() { back, rerr = t.a.Decrypt(ct, ad2) })
-		e["rtok"], e["rtout"], e["rtpanic"] = rerr == nil && !rp, vt.Hex(back), rp
+		rin := x.place((lay+1)%4, ct, ad2) // the frame is reused, other order
+		rp, rpv := vt.Try(func() { back, rerr = t.a.Decrypt(rin.a, rin.b) })
+		e["rtok"], e["rtout"], e["rtpanic"], e["rtIntact"] = rerr == nil && !rp, vt.Hex(back), rp, rin.intact()
 		if rp {
 			e["panicVal"] = fmt.Sprint(rpv)
 		}
@@ -430,17 +511,27 @@ func (x *runner) encrypt(t *target, pt, ad []byte) []byte {
 	return ct
 }
 
-// decrypt performs one Decrypt and logs it with the pairs known to have been produced under the key.
+// decrypt performs one Decrypt -- twice from the same frame -- and logs it with the pairs known to have been
+// produced under the key.
 func (x *runner) decrypt(t *target, kind, src string, ct, ad []byte, produced []pair, chk bool, want []byte) {
-	var pt []byte
-	var err error
-	p, pv := vt.Try(func() { pt, err = t.a.Decrypt(ct, ad) })
+	var pt, pt2 []byte
+	var err, err2 error
+	lay := x.lay % 4
+	x.lay++
+	in := x.place(lay, ct, ad)
+	p, pv := vt.Try(func() {
+		pt, err = t.a.Decrypt(in.a, in.b)
+		pt = append([]byte(nil), pt...)
+		pt2, err2 = t.a.Decrypt(in.a, in.b)
+	})
 	e := t.ev("decrypt")
 	e["kind"], e["src"] = kind, src
+	e["lay"], e["inIntact"] = lay, in.intact()
 	e["ct"], e["ad"], e["adnil"] = vt.Hex(ct), vt.Hex(ad), ad == nil
 	e["produced"] = prodJSON(produced)
 	e["chk"], e["want"] = chk, vt.Hex(want)
 	e["ok"], e["out"], e["panic"] = err == nil && !p, vt.Hex(pt), p
+	e["ok2"], e["out2"] = err2 == nil && !p, vt.Hex(pt2)
 	if p {
 		e["panicVal"] = fmt.Sprint(pv)
 	}
